@@ -12,6 +12,6 @@ CONSTANTS
   MaxRequery = 0
   FixCommitState = TRUE
   SeqSMP = FALSE
-  FixSMPReset = FALSE
+  FixSMPReset = TRUE
 INVARIANTS EmitAll
 CHECK_DEADLOCK FALSE
